@@ -14,6 +14,7 @@ import (
 	"gverif/engine/goproto"
 	"gverif/engine/graphinv"
 	"gverif/engine/loopidx"
+	"gverif/engine/modset"
 	"gverif/engine/okflow"
 	"gverif/engine/overlap"
 	"gverif/engine/paramuse"
@@ -102,7 +103,7 @@ var blasArgs = args.Options{RecvType: "Implementation"}
 
 func init() {
 	properties["C01"] = &property{
-		explanation: "Decides structural necessary conditions of C01 for all BLAS code paths: TWIN.generated — every generated float32/complex64 routine (and sgemm, the dot variants, the blas32/cblas64/cblas128 conversions), none of which has tests of its own at Level 2/3, is node for node the image of its tested float64/complex128 source under the generator's renaming; STRIDE — no operand of blas/gonum, the blas64/blas32/cblas* wrappers or the internal/asm Go kernels is indexed, sliced or forwarded with another operand's ld/inc/Stride (units inferred by flow-insensitive fixpoint over integer locals). Does not decide arithmetic correctness of the loop nests, rounding, or assembly semantics.",
+		explanation: "Decides structural necessary conditions of C01 for all BLAS code paths: TWIN.generated — every generated float32/complex64 routine (and sgemm, the dot variants, the blas32/cblas64/cblas128 conversions), none of which has tests of its own at Level 2/3, is node for node the image of its tested float64/complex128 source under the generator's renaming; MODSET.blas — for all 142 routines the set of slice operands that may be written (SSA store/copy/call summaries with a level-sensitive points-to abstraction, bottom-up over the VTA call graph, analysed under the noasm tag so that every kernel has a Go body) equals the output operands of the BLAS standard for the routine's stem ('every read-only operand is unchanged', up to caller-supplied aliasing); STRIDE — no operand of blas/gonum, the blas64/blas32/cblas* wrappers or the internal/asm Go kernels is indexed, sliced or forwarded with another operand's ld/inc/Stride (units inferred by flow-insensitive fixpoint over integer locals). Does not decide arithmetic correctness of the loop nests, rounding, or assembly semantics.",
 		assumptions: commonAssumptions,
 		run: func(tier string, res *core.Result) {
 			r := stride.Run(def, core.Pkgs(blasPkgs...))
@@ -124,6 +125,11 @@ func init() {
 				pu.Floor("parameters", 1500)
 				res.Merge(pu)
 			}
+			ms := modset.Run(core.Config{Tags: "noasm"})
+			ms.Floor("blas_routines", 140)
+			ms.Floor("blas_slice_operands", 300)
+			ms.Floor("functions_summarised", 3000)
+			res.Merge(ms.Only("MODSET.blas"))
 			t := twin.Run(twin.Which{Generated: true, Prefixes: []string{"blas/"}})
 			t.Floor("generated_file_pairs", 17)
 			t.Floor("twin_declaration_pairs", 140)
@@ -283,7 +289,7 @@ func init() {
 
 func init() {
 	properties["C05"] = &property{
-		explanation: "Decides the 'partial overlap panics instead of returning' mechanism of C05 for every exported pointer-receiver method of the overlap-aware mat types (Dense, VecDense, SymDense, TriDense, CDense and the band/diag/tridiag types; ...To(dst) methods use dst as destination): OVERLAP.guard — a forward must-analysis over each method's CFG proves that at every kernel write of the destination (blas64/lapack64/asm call, copy or Data store) every operand whose raw storage is read by that same statement has, on every path, passed a checkOverlap*/isolatedWorkspace guard, an identity test (recv == operand edge), the isolated-workspace edge (restore != nil), or delegation to a method that guards it; a failed type assertion makes the guard vacuous (no storage to compare). OVERLAP.iso — every isolatedWorkspace restore closure is deferred or called. OVERLAP.elemsize — in both the default and the safe build the address difference of two slices is divided by the size of exactly their element type. Copy/Clone methods (memmove semantics) are out of scope. Does NOT decide correctness of the overlap predicate's arithmetic (rectanglesOverlap, offset), Dense.Copy's direction choice, generic At/set loops over operands of unknown type, nor that operands are never written.",
+		explanation: "Decides the 'never modify an operand that is not the receiver' clause of C05 by MODSET.mat — parameter write summaries of every function reachable from mat (SSA, level-sensitive points-to with escape summaries, VTA call graph, noasm bodies for the kernels): no exported function or method of mat may write through a matrix-typed parameter other than the receiver or a parameter named dst (187 parameters; accessor calls through the read-only Matrix interfaces are trusted not to write). It also decides the 'partial overlap panics instead of returning' mechanism of C05 for every exported pointer-receiver method of the overlap-aware mat types (Dense, VecDense, SymDense, TriDense, CDense and the band/diag/tridiag types; ...To(dst) methods use dst as destination): OVERLAP.guard — a forward must-analysis over each method's CFG proves that at every kernel write of the destination (blas64/lapack64/asm call, copy or Data store) every operand whose raw storage is read by that same statement has, on every path, passed a checkOverlap*/isolatedWorkspace guard, an identity test (recv == operand edge), the isolated-workspace edge (restore != nil), or delegation to a method that guards it; a failed type assertion makes the guard vacuous (no storage to compare). OVERLAP.iso — every isolatedWorkspace restore closure is deferred or called. OVERLAP.elemsize — in both the default and the safe build the address difference of two slices is divided by the size of exactly their element type. Copy/Clone methods (memmove semantics) are out of scope. Does NOT decide correctness of the overlap predicate's arithmetic (rectanglesOverlap, offset), Dense.Copy's direction choice, or generic At/set loops over operands of unknown type; user-defined Matrix implementations whose accessors write are outside MODSET's assumption.",
 		assumptions: commonAssumptions,
 		run: func(tier string, res *core.Result) {
 			r := overlap.Run(def)
@@ -291,6 +297,11 @@ func init() {
 			r.Floor("operand_write_obligations", 45)
 			r.Floor("isolated_workspace_sites", 8)
 			res.Merge(r)
+			ms := modset.Run(core.Config{Tags: "noasm"})
+			ms.Floor("mat_matrix_parameters", 150)
+			ms.Floor("mat_dst_parameters_written", 30)
+			ms.Floor("functions_summarised", 3000)
+			res.Merge(ms.Only("MODSET.mat"))
 			for _, c := range []core.Config{{}, {Tags: "safe"}} {
 				es := overlap.RunElemSize(c)
 				es.Floor("address_difference_divisions", 2)
@@ -494,6 +505,8 @@ func dump(argv []string) {
 		res.Merge(paramuse.Run(core.Config{Tags: "noasm"}, core.Pkgs(argv[1:]...)))
 	case "clone":
 		res = decode.RunClone(def, argv[1:]...)
+	case "modset":
+		res = modset.Run(core.Config{Tags: "noasm"})
 	case "twin":
 		res = twin.Run(twin.Which{Generated: true, Bounds: true, ReuseAs: true, R3: true, Siblings: []string{"graph/iterator"}})
 	case "args":
